@@ -124,6 +124,8 @@ fn run_case(arena: &mut Arena, c: &Case) -> Outcome {
                 }
             } else if fits {
                 out.v.push(("C15", format!("refused_fitting/{:?}", e.kind), format!("aligned buffer of {} bytes can hold the content but was refused: {:?}", c.n, e)));
+                // C03 promises a value for every aligned buffer that is large enough (C20 for defaults)
+                out.v.push(("C03", format!("refused_fitting/{:?}", e.kind), format!("aligned buffer of {} bytes is large enough but emplacement failed: {:?}", c.n, e)));
             } else if e.kind != ErrorKind::InsufficientSize {
                 out.v.push(("C15", format!("too_small_kind/{:?}", e.kind), format!("buffer of {} bytes is too small; refused with {:?} instead of InsufficientSize", c.n, e)));
             }
@@ -440,8 +442,9 @@ impl Engine for Emplace {
         let want = case["value"].as_str().unwrap_or("").to_string();
         let mut v: Option<Value> = None;
         for lim in [Limits::quick(), Limits::thorough()] {
-            for x in enum_values(&d, avail, &lim) {
-                if format!("{:?}", x) == want {
+            for (i, x) in enum_values(&d, avail, &lim).into_iter().enumerate() {
+                // recorded either by its printed form or (crash journal) as "#<index>"
+                if format!("{:?}", x) == want || (want == format!("#{}", i) && v.is_none()) {
                     v = Some(x);
                 }
             }
